@@ -15,11 +15,17 @@ EXPLANATION = (
     "min|x| <= mean|x| <= max|x|. Check: outputs and all gradients with and without track_scales / the tracking backend "
     "bit-identical (three dtypes, multi-step runs on one tracked module); recorded metrics vs statistics of tensors "
     "captured by an independent fx.Interpreter with gradient hooks; no backward metrics without gradient; non-float "
-    "values never instrumented; analyse_module leaves gradients unchanged."
+    "values never instrumented; analyse_module leaves gradients unchanged. DAG level: Lean model of the tracking interpreter "
+    "and of autograd's reverse sweep (one gradient buffer per node, no law of + assumed); theorems: the table of logged "
+    "gradients solves the adjoint equation (seed plus the cotangents of every consumer, every argument position) and is "
+    "its only solution. Correspondence: random integer DAG programs (fan-out, repeated arguments, multiple outputs, "
+    "forward-only) run through the model driver and through the real tracking backend / track_scales; every logged "
+    "statistic, forward and backward, must agree exactly."
 )
 ASSUMPTIONS = ["TorchDynamo hands the backend the graph of the module (runtime not modelled)"]
 THMS = ["USProofs.C18.track_transparent", "USProofs.C18.track_fwd_value", "USProofs.C18.track_bwd_total",
-        "USProofs.C18.abs_mean_le_mean_abs", "USProofs.C18.mean_abs_bounds"]
+        "USProofs.C18.abs_mean_le_mean_abs", "USProofs.C18.mean_abs_bounds",
+        "USProofs.C18.logged_solves_adjoint", "USProofs.C18.adjoint_unique", "USProofs.C18.dag_transparent"]
 FIELDS = ["mean_abs", "abs_mean", "std", "abs_max", "abs_min", "numel"]
 
 
@@ -58,11 +64,23 @@ def run(ctx: Ctx) -> None:
                 return f
         return None
 
+    class _Copy(torch.autograd.Function):
+        """the only thing the tracker does to values: contiguous copies in both directions"""
+
+        @staticmethod
+        def forward(c, t):  # type: ignore[no-untyped-def]
+            return t.clone()
+
+        @staticmethod
+        def backward(c, g):  # type: ignore[no-untyped-def]
+            return g.clone()
+
     class Capture(torch.fx.Interpreter):
         """independent observer: runs the plain graph, keeps every float tensor and its total gradient"""
 
-        def __init__(self, gm):
+        def __init__(self, gm, clone: bool = False):
             super().__init__(gm)
+            self.clone = clone
             self.vals: Dict[str, torch.Tensor] = {}
             self.grads: Dict[str, torch.Tensor] = {}
             self.nonfloat: List[str] = []
@@ -79,6 +97,8 @@ def run(ctx: Ctx) -> None:
                 self.vals[n.name] = out.detach().clone()
                 if out.requires_grad:
                     out.register_hook(lambda g, name=n.name: self.grads.__setitem__(name, g.detach().clone()))
+                if self.clone:
+                    out = _Copy.apply(out)
             elif n.op != "output":
                 self.nonfloat.append(n.name)
             return out
@@ -214,37 +234,37 @@ def run(ctx: Ctx) -> None:
             # (2) metrics = statistics of the tensors that flowed.  What was recorded is what flowed *during the run*: the
             # parameters and inputs are changed in place (as an optimizer step would) before the metrics are read, and
             # restored afterwards.
-            def compare_metrics() -> bool:
+            def compare_metrics(cap=cap, emit=ctx.violation) -> bool:
                 if not via_dynamo:
                     g = graph_of()
                     for n in g.nodes:
                         m = n.meta.get("metrics")
                         if n.name in cap.nonfloat:
                             if m is not None or n.meta.get("outputs_float_tensor"):
-                                ctx.violation("C18:nonfloat-instrumented", "a non-float value was instrumented", {**rkey, "node": n.name})
+                                emit("C18:nonfloat-instrumented", "a non-float value was instrumented", {**rkey, "node": n.name})
                             continue
                         if n.name not in cap.vals:
                             continue
                         if m is None:
-                            ctx.violation("C18:missing-metrics", "no metrics recorded for a float tensor", {**rkey, "node": n.name})
+                            emit("C18:missing-metrics", "no metrics recorded for a float tensor", {**rkey, "node": n.name})
                             return True
                         f = same_stats(m.fwd, stats(cap.vals[n.name]))
                         if f:
-                            ctx.violation(f"C18:fwd-metric:{f}", "forward metric differs from the statistic of the tensor that flowed",
+                            emit(f"C18:fwd-metric:{f}", "forward metric differs from the statistic of the tensor that flowed",
                                           {**rkey, "node": n.name}, {"got": getattr(m.fwd, f), "want": stats(cap.vals[n.name])[f]})
                             return True
                         if n.name in cap.grads:
                             if m.bwd is None:
-                                ctx.violation("C18:bwd-missing", "no backward metrics although a gradient reached the tensor",
+                                emit("C18:bwd-missing", "no backward metrics although a gradient reached the tensor",
                                               {**rkey, "node": n.name})
                                 return True
                             f = same_stats(m.bwd, stats(cap.grads[n.name]))
                             if f:
-                                ctx.violation(f"C18:bwd-metric:{f}", "backward metric differs from the statistic of the total gradient",
+                                emit(f"C18:bwd-metric:{f}", "backward metric differs from the statistic of the total gradient",
                                               {**rkey, "node": n.name}, {"got": getattr(m.bwd, f), "want": stats(cap.grads[n.name])[f]})
                                 return True
                         elif m.bwd is not None:
-                            ctx.violation("C18:bwd-stale", "backward metrics reported for a tensor that received no gradient in this run",
+                            emit("C18:bwd-stale", "backward metrics reported for a tensor that received no gradient in this run",
                                           {**rkey, "node": n.name})
                             return True
                 else:
@@ -255,10 +275,10 @@ def run(ctx: Ctx) -> None:
                     want = sorted((t.numel(), round(stats(t)["mean_abs"], 6)) for t in cap.vals.values())
                     miss = [w for w in set(want) if w not in got]
                     if miss:
-                        ctx.violation("C18:dynamo-metrics", "a float tensor of the computation has no matching recorded metrics", rkey, miss[:3])
+                        emit("C18:dynamo-metrics", "a float tensor of the computation has no matching recorded metrics", rkey, miss[:3])
                         return True
                     if which == "none" and any(n.meta.get("metrics") is not None and n.meta["metrics"].bwd is not None for n in g.nodes):
-                        ctx.violation("C18:bwd-stale", "backward metrics reported after a forward-only run", rkey)
+                        emit("C18:bwd-stale", "backward metrics reported after a forward-only run", rkey)
                         return True
                 return False
 
@@ -266,12 +286,32 @@ def run(ctx: Ctx) -> None:
             with torch.no_grad():
                 for t_, _ in saved_:
                     t_.add_(1.0)
+            found_: List[Any] = []
             try:
-                stop = compare_metrics()
+                stop = compare_metrics(cap, lambda *a_: found_.append(a_))
             finally:
                 with torch.no_grad():
                     for t_, v_ in saved_:
                         t_.copy_(v_)
+            if found_ and sliced:
+                # The listed finding can also touch an intermediate tensor only (outputs and gradients happen to agree). The
+                # recorded metrics must then be the statistics of what flowed through the *tracked* run: compare them with
+                # the counterfactual run that does to values exactly what the tracker does (contiguous copies).
+                found2_: List[Any] = [None]
+                try:
+                    cap2 = Capture(fg.trace_fx(copy.deepcopy(base)), clone=True)
+                    x2_ = [x.clone().requires_grad_(True) if x.is_floating_point() else x for x in xs0]
+                    out2_ = cap2.run(*x2_)
+                    backward_through(out2_ if isinstance(out2_, tuple) else (out2_,), which, 50 + ri)
+                    found2_ = []
+                    compare_metrics(cap2, lambda *a_: found2_.append(a_))
+                except Exception:  # noqa: BLE001
+                    found2_ = [None]
+                if not found2_:
+                    found_ = [("C18:clone-changes-layout", "an intermediate tensor differs with tracking; the recorded metrics are "
+                               "those of the tensors that flowed through the tracked run", rkey)]
+            for a_ in found_:
+                ctx.violation(*a_)
             if stop:
                 break
 
@@ -460,3 +500,183 @@ def run(ctx: Ctx) -> None:
             ctx.violation("C18:stale-graph", "scales_graph() has no node with the statistics of the last output", key)
         if any(n.meta.get("metrics") is not None and n.meta["metrics"].bwd is not None for n in g2.nodes):
             ctx.violation("C18:bwd-stale", "backward metrics reported after a forward-only call", key)
+
+    # ---- model correspondence: DAG programs over exact integers.  The Lean model (`USModel.Dag`: forward interpreter with a
+    #      tracker after every node + autograd's reverse sweep with one gradient buffer per node) and the real tracking
+    #      backend run the same program; what each tracker logged (value and total gradient, or no gradient) must agree
+    #      exactly.  Entries are small integers in float64 tensors of 4 elements, so every statistic is exact.
+    import operator
+
+    def gen_dag(n_nodes: int) -> Dict[str, Any]:
+        nodes: List[Dict[str, Any]] = []
+        n_in = rng.randint(1, 3)
+        for _ in range(n_in):
+            nodes.append({"op": "input", "v": [rng.randint(-3, 3) for _ in range(4)]})
+        muls = 0
+        while len(nodes) < n_in + n_nodes:
+            j = len(nodes)
+            kind = rng.choice(["add", "sub", "scale", "mul", "add", "fan"])
+            # prefer recent nodes, but reach back (fan-out: one tensor read by several consumers, or twice by one)
+            pick = lambda: rng.choice([j - 1, rng.randrange(j), rng.randrange(j)])  # noqa: E731
+            if kind == "mul" and muls < 3:
+                muls += 1
+                nodes.append({"op": "mul", "ins": [pick(), pick()]})
+            elif kind == "scale":
+                nodes.append({"op": "lin", "ins": [pick()], "w": [rng.choice([-2, -1, 2, 3])]})
+            elif kind == "sub":
+                nodes.append({"op": "lin", "ins": [pick(), pick()], "w": [1, -1]})
+            elif kind == "fan":
+                a = pick()
+                nodes.append({"op": "lin", "ins": [a, a], "w": [1, 1]})
+            else:
+                nodes.append({"op": "lin", "ins": [pick(), pick()], "w": [1, 1]})
+        outs = sorted(set(rng.sample(range(n_in, len(nodes)), k=min(rng.randint(1, 2), len(nodes) - n_in))))
+        if rng.random() < 0.3:
+            outs = []  # forward only
+        seed = [{"node": o, "g": [rng.randint(-2, 2) for _ in range(4)]} for o in outs]
+        return {"nodes": nodes, "seed": seed}
+
+    def fx_of(spec: Dict[str, Any]) -> torch.fx.GraphModule:
+        g = torch.fx.Graph()
+        env: List[torch.fx.Node] = []
+        for k, nd in enumerate(spec["nodes"]):
+            if nd["op"] == "input":
+                env.append(g.placeholder(f"x{k}"))
+            elif nd["op"] == "mul":
+                env.append(g.call_function(operator.mul, (env[nd["ins"][0]], env[nd["ins"][1]])))
+            elif nd["w"] == [1, 1]:
+                env.append(g.call_function(operator.add, (env[nd["ins"][0]], env[nd["ins"][1]])))
+            elif nd["w"] == [1, -1]:
+                env.append(g.call_function(operator.sub, (env[nd["ins"][0]], env[nd["ins"][1]])))
+            else:
+                env.append(g.call_function(operator.mul, (env[nd["ins"][0]], nd["w"][0])))
+        g.output(tuple(env[s["node"]] for s in spec["seed"]) if spec["seed"] else env[-1])
+        return torch.fx.GraphModule(nn.Module(), g)
+
+    class DagModule(nn.Module):
+        def __init__(self, spec: Dict[str, Any]) -> None:
+            super().__init__()
+            self.spec = spec
+
+        def forward(self, xs):  # type: ignore[no-untyped-def]
+            env: List[Any] = []
+            k = 0
+            for nd in self.spec["nodes"]:
+                if nd["op"] == "input":
+                    env.append(xs[k])
+                    k += 1
+                elif nd["op"] == "mul":
+                    env.append(env[nd["ins"][0]] * env[nd["ins"][1]])
+                elif nd["w"] == [1, 1]:
+                    env.append(env[nd["ins"][0]] + env[nd["ins"][1]])
+                elif nd["w"] == [1, -1]:
+                    env.append(env[nd["ins"][0]] - env[nd["ins"][1]])
+                else:
+                    env.append(env[nd["ins"][0]] * nd["w"][0])
+            return tuple(env[s["node"]] for s in self.spec["seed"]) if self.spec["seed"] else env[-1]
+
+    def int_stats(v: List[int]) -> tuple:
+        return (sum(abs(x) for x in v), abs(sum(v)), max(abs(x) for x in v), min(abs(x) for x in v), len(v))
+
+    def rec_stats(d: Any) -> tuple:
+        return (d.mean_abs * d.numel, d.abs_mean * d.numel, d.abs_max, d.abs_min, d.numel)
+
+    n_dag = 60 if quick else 1500
+    specs = [gen_dag(rng.randint(1, 12)) for _ in range(n_dag)]
+    resp = driver.ask([{"k": "dag", **s} for s in specs])
+    for ci, (spec, r) in enumerate(zip(specs, resp)):
+        log = r["log"]
+        if any(abs(x) >= 2 ** 40 for e in log for x in (e["v"] + (e["g"] or []))):
+            ctx.bump("dag/skipped-too-large")
+            continue
+        via_dynamo = ci % 10 == 9
+        key = {"path": "dag-dynamo" if via_dynamo else "dag-direct", "spec": spec}
+        ctx.count(key, bucket=key["path"])
+        xs = [torch.tensor(nd["v"], dtype=torch.float64) for nd in spec["nodes"] if nd["op"] == "input"]
+        graph = None
+        with ctx.guard("C18:dag-run", key):
+            if via_dynamo:
+                tm = track_scales(DagModule(spec))
+                xs = [x.requires_grad_(True) for x in xs]
+                out = tm(xs)
+                graph_fn = tm.scales_graph
+            else:
+                backend = ScaleTrackingBackend()
+                xs = [x.requires_grad_(True) for x in xs]
+                out = backend(fx_of(spec), [])(*xs)
+                graph_fn = lambda: backend.graph  # noqa: E731
+            if spec["seed"]:
+                loss = sum((o * torch.tensor(s["g"], dtype=torch.float64)).sum() for o, s in zip(out, spec["seed"]))
+                loss.backward()
+            graph = graph_fn()
+        if graph is None:
+            continue
+        model_recs = [(int_stats(e["v"]), None if e["g"] is None else int_stats(e["g"])) for e in log]
+        # (an `output` node that returns a single tensor is itself wrapped: an identity node the model does not have)
+        tracked = [n for n in graph.nodes if n.meta.get("metrics") is not None and n.op != "output"]
+        impl_recs = [(rec_stats(n.meta["metrics"].fwd), None if n.meta["metrics"].bwd is None else rec_stats(n.meta["metrics"].bwd))
+                     for n in tracked]
+        if via_dynamo:
+            # Dynamo names and orders its nodes itself and drops nodes nothing reads: every tracked node must be one of the
+            # model's log entries, and every node on a path to an output must be present
+            missing = [m for m in impl_recs if m not in model_recs]
+            if missing:
+                ctx.disagree("dag_log", key, model_recs, impl_recs, ["USProofs.C18.logged_solves_adjoint", "USProofs.C18.adjoint_unique"])
+            elif spec["seed"] and any(m[1] is not None and m not in impl_recs for m in model_recs):
+                ctx.disagree("dag_log", key, model_recs, impl_recs, ["USProofs.C18.logged_solves_adjoint", "USProofs.C18.adjoint_unique"])
+        elif impl_recs != model_recs:
+            bad = next((k for k, (a, b) in enumerate(zip(model_recs, impl_recs)) if a != b), min(len(model_recs), len(impl_recs)))
+            ctx.disagree("dag_log", {**key, "node": bad}, model_recs[bad:bad + 1], impl_recs[bad:bad + 1],
+                         ["USProofs.C18.logged_solves_adjoint", "USProofs.C18.adjoint_unique"])
+
+    # ---- many tracked instances of one class in one process (a width sweep): every one of them is instrumented and reports
+    #      the statistics of its own tensors; and a tracked copy trains exactly the parameters the original trains
+    import unit_scaling as uu_
+
+    class Sweep(nn.Module):
+        def __init__(self, width: int, freeze: bool) -> None:
+            super().__init__()
+            self.l1 = uu_.Linear(6, width)
+            self.l2 = uu_.Linear(width, 6)
+            if freeze:
+                self.l1.weight.requires_grad_(False)
+
+        def forward(self, x):  # type: ignore[no-untyped-def]
+            return self.l2(torch.relu(self.l1(x)))
+
+    for wi, width in enumerate(range(3, 3 + (12 if quick else 24))):
+        freeze = wi % 3 == 1
+        key = {"path": "dynamo", "family": "instances of one class", "instance": wi, "width": width, "frozen_l1_weight": freeze}
+        ctx.count(key, bucket="dynamo/instances")
+        with ctx.guard("C18:instances", key):
+            torch.manual_seed(100 + wi)
+            plain = Sweep(width, freeze)
+            torch.manual_seed(100 + wi)
+            tm = track_scales(Sweep(width, freeze))
+            x0 = torch.randn(4 + wi, 6)
+            xp, xt = x0.clone().requires_grad_(True), x0.clone().requires_grad_(True)
+            yp, yt = plain(xp), tm(xt)
+            yp.sum().backward()
+            yt.sum().backward()
+            if not torch.equal(yp, yt) or not torch.equal(xp.grad, xt.grad):
+                ctx.violation("C18:outputs", "outputs / input gradients differ with tracking", key)
+            gp = {n_: p_.grad for n_, p_ in plain.named_parameters()}
+            gt = {n_.replace("_orig_mod.", ""): p_.grad for n_, p_ in tm.named_parameters()}
+            if any((gp[n_] is None) != (gt.get(n_) is None) or (gp[n_] is not None and not torch.equal(gp[n_], gt[n_])) for n_ in gp):
+                ctx.violation("C18:gradients", "the tracked module does not produce the gradients of the plain module (a frozen "
+                              "parameter received a gradient, or a gradient differs)", key,
+                              {n_: [gp[n_] is not None, gt.get(n_) is not None] for n_ in gp})
+            g_ = tm.scales_graph()
+            recs = [n for n in g_.nodes if n.meta.get("metrics") is not None]
+            hidden = torch.relu(plain.l1(x0)).detach()
+            if not any(same_stats(n.meta["metrics"].fwd, stats(hidden)) is None for n in recs) or \
+                    not any(same_stats(n.meta["metrics"].fwd, stats(yp.detach())) is None for n in recs):
+                ctx.violation("C18:not-instrumented", "a tracked instance recorded no metrics for the tensors that flowed through "
+                              "it (instance number %d of its class in this process)" % wi, key, {"recorded_nodes": len(recs)})
+            if freeze:
+                w_ = plain.l1.weight.detach()
+                for n in recs:
+                    if n.meta["metrics"].fwd.numel == w_.numel() and same_stats(n.meta["metrics"].fwd, stats(w_)) is None \
+                            and n.meta["metrics"].bwd is not None and n.op in ("placeholder", "get_attr"):
+                        ctx.violation("C18:bwd-stale", "backward metrics reported for a frozen parameter, which receives no gradient", key,
+                                      {"node": n.name})
